@@ -101,6 +101,22 @@ PROPS = {
         "trusted_base": [],
         "assumptions": ["event ids are unique per stream; window and timestamps in the code's own unit (duration.as_secs() vs raw timestamps)"],
     },
+    "C15": {
+        "num": 15,
+        "vo": ["Properties/C15.vo"],
+        "rule": "sequential: exhaustive all mutator sequences of length<=2 over 4 names x 3 saliences, length<=4 (quick; <=5 thorough) over 2 names x 3 saliences (add/remove/enable/disable/clear), "
+                "random sequences of 3..8 ops incl. i32 extreme saliences; after every op the complete state (listing, lookup of all 4 names, version) is observed. Concurrent: 1500 (quick) / 40000 "
+                "(thorough) histories of 3 threads x 4 ops on one shared Arc<KnowledgeBase> with cfg-guarded yield points between lock acquisitions; each history is checked for linearizability "
+                "against the sequential specification by the Coq-defined search KB.lin (real-time order from one atomic counter). non-trivial = at least one rule stored / overlapping operations",
+        "level_text": "Proved for every state/op (sequences of any length): duplicate add and every refused op change nothing; version never decreases and grows by one on every successful change; the listing "
+                "is in descending salience in every reachable state; the lock acquisition order read from the source is one global order with `rules` first. The full sequential refinement to the abstract "
+                "specification (lookup = most recently added rule, insertion order among equal saliences) and linearizability of concurrent histories are the Coq-defined monitors KB.ok (exhaustive small scope + random) "
+                "evaluated on the real KnowledgeBase.",
+        "level_note": "Trusted: Coq kernel; model of knowledge_base.rs (method bodies atomic because every method takes all its locks first and holds them to the end - checked syntactically by consts.py); "
+                "std RwLock mutual exclusion; OS scheduler only sampled (partial: thread runtime). Refinement model=spec is checked by the monitor, not yet a theorem. Axioms: none.",
+        "trusted_base": ["std::sync::RwLock provides mutual exclusion; Vec::sort_by_key is a stable sort"],
+        "assumptions": ["rules are identified by a tag stored in Rule.description"],
+    },
     "C13": {
         "num": 13,
         "vo": ["Properties/C13.vo"],
